@@ -697,7 +697,18 @@ func c03KF(c c03Case, v *Violation) []string {
 		// removed part is absorbed by the neighbouring part that abuts the cut
 		for _, f := range c.Feats {
 			red, _ := reduceSim(pm(f.Loc))
-			if hasResidue(den(red)) && (!endWitnessed(red, true) || !endWitnessed(red, false)) {
+			// only the end that was really cut counts (an uncut end never has a witness and must not excuse anything)
+			front, back := true, true
+			if !wrap {
+				lo, hi := c.I, c.I+c.N
+				removed := func(p int) bool { return lo <= p && p < hi }
+				if c.Op == "slice" {
+					ws, we, _ := c.window()
+					removed = func(p int) bool { return p < ws || p >= we }
+				}
+				front, back = cutEnds(f.Loc, removed)
+			}
+			if hasResidue(den(red)) && ((front && !endWitnessed(red, true)) || (back && !endWitnessed(red, false))) {
 				sigs = append(sigs, "cut-site-absorbed-by-neighbour")
 			}
 		}
@@ -811,6 +822,34 @@ func TestC03(t *testing.T) {
 		}
 	}
 	eg.done(true)
+	// distant cuts: one range (plain and complemented) against deletions that begin 0..a residues upstream of it and
+	// end near its boundaries, and deletions that begin near its boundaries and end 0..L-b residues downstream
+	ed := enumPart(t, c03Prop, st, "distant-cuts")
+	dL := pick(140, 320)
+	for _, a := range []int{70, dL - 60} {
+		b := a + 30
+		for _, loc := range []Loc{lrg(a, b), lco(lrg(a, b))} {
+			feats := []Feat{{Key: "gene", Loc: loc, Quals: [][]string{{"label", "f0"}}}}
+			near := []int{a - 1, a, a + 1, a + 10, b - 1, b, b + 1}
+			for _, op := range []string{"delete", "erase"} {
+				for i := 0; i <= a; i++ {
+					for _, j := range near {
+						if !ed.try(c03Case{L: dL, Op: op, I: i, N: j - i, Feats: feats}) {
+							return
+						}
+					}
+				}
+				for _, i := range near {
+					for j := b; j <= dL; j++ {
+						if !ed.try(c03Case{L: dL, Op: op, I: i, N: j - i, Feats: feats}) {
+							return
+						}
+					}
+				}
+			}
+		}
+	}
+	ed.done(true)
 	e := enumPart(t, c03Prop, st, "exhaustive-small")
 	for L := 1; L <= maxL; L++ {
 		leaves := smallLocs(L, true, true)
